@@ -5,7 +5,7 @@
 # The pipeline's worker threads and sockets live for the whole process: no -fork; leak detection is switched off in
 # the target (__asan_default_options); libFuzzer's default -rss_limit_mb=2048 holds (peak ~0.5 GB).
 V="${VERIF_DIR:-$(cd "$(dirname "$0")/../.." && pwd)}"
-"$(dirname "$0")/../../tools/fuzz_campaign.sh" C13 value_to_sinks "$1" "$2" 3000 200000 512
+"$(dirname "$0")/../../tools/fuzz_campaign.sh" C13 value_to_sinks "$1" "$2" 1000 200000 512
 rc=$?
 # libFuzzer exits without running the harness' shutdown: remove the file-sink scratch directories of dead processes
 for d in "$V"/harness/target/c13-files/*/; do
